@@ -177,6 +177,7 @@ type c04Eng struct {
 	timingUnsafe bool
 
 	cmdsCoq []string
+	snaps   [][]c04Snap
 	cmdsJS  []string
 }
 
@@ -654,6 +655,7 @@ func (e *c04Eng) quiesce() {
 		fmt.Printf("quiesce took %v reasons %v\n", time.Since(deadline.Add(-8*time.Second)), e.why)
 		e.why = map[string]int{}
 	}
+	e.snapshot()
 	e.lastCmdAt = time.Now()
 	// a thread blocked at the unsubscribe wait gate has a real 5 s timer that cannot be held back: the
 	// commands between two timed commands must fit well into that, otherwise the run is repeated (c04RunPlan)
@@ -693,6 +695,24 @@ func (e *c04Eng) finish(th *c04Thread) {
 func (e *c04Eng) addCmd(coq string, js string) {
 	e.cmdsCoq = append(e.cmdsCoq, coq)
 	e.cmdsJS = append(e.cmdsJS, js)
+}
+
+// snapshot records, at the quiescent point after a command, what C26 talks about.
+func (e *c04Eng) snapshot() {
+	row := make([]c04Snap, 0, len(e.chs))
+	for _, ch := range e.chs {
+		sn := c04Snap{N: e.node.hub.NumSubscribers(ch)}
+		e.mu.Lock()
+		sn.BSub = e.bsub[ch]
+		e.mu.Unlock()
+		m := e.node.subLock(ch)
+		if m.TryLock() {
+			sn.Free = true
+			m.Unlock()
+		}
+		row = append(row, sn)
+	}
+	e.snaps = append(e.snaps, row)
 }
 
 func (e *c04Eng) chIdx(ch string) uint64 {
@@ -847,7 +867,7 @@ func (e *c04Eng) release(p *c04Park, b bool) {
 	case p.kind == c04GkBrokerUnsub:
 		e.addCmd(vApp("CReleaseJob", vN(e.chIdx(p.ch)), vBool(b)), fmt.Sprintf("release job %s %v", p.ch, b))
 	case e.isClosePark(p):
-		e.addCmd(vApp("CReleaseClose", vBool(b)), fmt.Sprintf("release close@%s %v", c04GkNames[p.kind], b))
+		e.addCmd(vApp("CReleaseClose", c04GkNames[p.kind], vN(e.chIdx(p.ch)), vBool(b)), fmt.Sprintf("release close@%s(%s) %v", c04GkNames[p.kind], p.ch, b))
 	default:
 		e.addCmd(vApp("CRelease", vN(uint64(p.th.k)), c04GkNames[p.kind], vN(e.chIdx(p.ch)), vBool(b)), fmt.Sprintf("release %d@%s %v", p.th.k, c04GkNames[p.kind], b))
 	}
@@ -1021,6 +1041,14 @@ type c04Obs struct {
 	Settled bool       `json:"settled"`
 	Panic   bool       `json:"panic"`
 	Stuck   string     `json:"stuck,omitempty"`
+	Drained bool       `json:"drained"`
+	Snaps   [][]c04Snap `json:"snaps"`
+}
+
+type c04Snap struct {
+	N    int  `json:"n"`
+	BSub bool `json:"b"`
+	Free bool `json:"f"`
 }
 
 func c04GaugeSum(g *prometheus.GaugeVec) int64 {
@@ -1186,8 +1214,16 @@ func (e *c04Eng) obsCoq(o c04Obs) string {
 	for _, ev := range o.Trace {
 		tr = append(tr, e.evCoq(ev))
 	}
+	var snaps []string
+	for _, row := range o.Snaps {
+		var xs []string
+		for _, sn := range row {
+			xs = append(xs, vApp("mkSnap", vN(uint64(sn.N)), vBool(sn.BSub), vBool(sn.Free)))
+		}
+		snaps = append(snaps, vList(xs))
+	}
 	return vApp("mkObs", vList(chs), vN(uint64(o.Status)), vBool(o.Reg), vZ(o.GConn), vZ(o.GSub), vList(tr),
-		vBool(o.Settled && o.Stuck == ""), vBool(o.Panic))
+		vBool(o.Settled && o.Stuck == ""), vBool(o.Panic), vBool(o.Drained), vList(snaps))
 }
 
 // ---- cases ------------------------------------------------------------------------------------
@@ -1261,6 +1297,8 @@ func c04RunPlanOnce(p c04Plan, r *rand.Rand) (res c04Result, unsafe bool) {
 	c04Finish(e, p.Drain)
 	t1 := time.Now()
 	o := e.observe()
+	o.Drained = p.Drain
+	o.Snaps = e.snaps
 	if c04Timing {
 		fmt.Printf("timing %s: script %v observe %v cmds %d\n", p.Name, t1.Sub(t0), time.Since(t1), len(e.cmdsCoq))
 	}
@@ -1288,7 +1326,9 @@ func c04RandArmed(r *rand.Rand) []c04Gk {
 	var out []c04Gk
 	p := 20 + r.Intn(60)
 	for k := c04Gk(0); k < c04NumGk; k++ {
-		if r.Intn(100) < p {
+		// PublishJoin is always a gate: the subscriber releases the wait gate BEFORE it publishes the join,
+		// so with an ungated join the woken unsubscribe's leave and the join race for real (see C07)
+		if r.Intn(100) < p || k == c04GkJoin {
 			out = append(out, k)
 		}
 	}
